@@ -271,6 +271,7 @@ func (ws *priorityWriteSchedulerRFC7540) CloseStream(streamID uint32) {
 	n.addBytes(-n.bytes)
 
 	q := n.q
+	n.q = writeQueue{}
 	ws.queuePool.put(&q)
 	if ws.maxClosedNodesInTree > 0 {
 		ws.addClosedOrIdleNode(&ws.closedNodes, ws.maxClosedNodesInTree, n)
